@@ -56,6 +56,9 @@ func runC19Parallel(ctx *core.Ctx) *core.Violation {
 	m.le = t.Chance(1, 2)
 	be := t.Pick(beMem, beSeeker, beSeeker, beSeekerAuto, beReaderAt, beFile, beMmapPath)
 	n := 1 + t.Draw(40)
+	if t.Chance(1, 8) {
+		n = 4000 + t.Draw(5000) // beyond one page: what a read-ahead window or a page-wise cache needs
+	}
 	data := genData(t, n, 2)
 	m.data, m.size = data, int64(n)
 	plan := faultio.Plan{FailAt: -1, Chunk: t.Pick(faultio.ChunkFull, faultio.ChunkFixed), Fixed: t.Pick(1, 2, 3), EOFStyle: t.Draw(2)}
@@ -118,8 +121,11 @@ func runC19Parallel(ctx *core.Ctx) *core.Violation {
 		k := 1 + t.Draw(5)
 		for j := 0; j < k; j++ {
 			op := parOp{off: int64(t.Draw(n + 2)), n: t.Draw(7)}
+			if n > 4096 && t.Chance(2, 3) {
+				op.off = int64(4096 - 8 + t.Draw(17)) // around the page boundary
+			}
 			if own[i] && be != beMem {
-				op.kind = t.Weighted(3, 2, 2)
+				op.kind = t.Weighted(3, 2, 2, 2)
 				op.tk = t.Draw(kI64 + 1)
 			}
 			plans[i] = append(plans[i], op)
@@ -151,6 +157,10 @@ func runC19Parallel(ctx *core.Ctx) *core.Violation {
 					br.Seek(tgt, io.SeekStart)
 					res.pos = br.Pos()
 					res.val = typedRead(br, op.tk)
+				case 3:
+					// a byte string read through the own clone and KEPT: judged when everybody is done
+					res.pos = br.Pos()
+					res.b = br.ReadBytes(int64(1 + op.n))
 				}
 			}
 		}
@@ -204,6 +214,25 @@ func runC19Parallel(ctx *core.Ctx) *core.Violation {
 				if res.n < op.n && res.err != io.EOF {
 					return m.viol("parallel-readat-wrong", "task %d call %d: short ReadAt with err=%v", i, j, res.err)
 				}
+			case 3:
+				if eof {
+					if len(res.b) != 0 {
+						return m.viol("parallel-readbytes-wrong", "task %d call %d: ReadBytes after an overrun returned %d bytes", i, j, len(res.b))
+					}
+					continue
+				}
+				if res.pos != pos {
+					return m.viol("parallel-pos-wrong", "task %d call %d: clone Pos() = %d, want %d", i, j, res.pos, pos)
+				}
+				want := int64(1 + op.n)
+				if pos+want > m.size {
+					want = m.size - pos
+					eof = true
+				}
+				if int64(len(res.b)) != want || !eq(res.b, data[pos:pos+want]) {
+					return m.viol("parallel-readbytes-wrong", "task %d call %d: ReadBytes(%d) at %d on its own clone, looked at after all callers were done = %q; the bytes there are %q", i, j, 1+op.n, pos, clip(res.b), clip(data[pos:pos+want]))
+				}
+				pos += want
 			case 1, 2:
 				if op.kind == 2 {
 					pos = op.off
